@@ -85,42 +85,44 @@ where E: Send + 'static
     }
 
     fn enque_timers(&mut self) {
-        for timer in self.timer_receiver.try_iter() {
-            match timer.1 {
-                TimerCommand::Create(e) => self.timers.insert(timer.0, e),
-                TimerCommand::Cancel => self.timers.remove(&timer.0),
-            };
+        while let Ok(timer_command) = self.timer_receiver.try_recv() {
+            self.process_timer_command(timer_command);
+        }
+    }
+
+    fn process_timer_command(&mut self, (timer_id, command): (TimerId, TimerCommand<E>)) {
+        match command {
+            TimerCommand::Create(e) => self.timers.insert(timer_id, e),
+            TimerCommand::Cancel => self.timers.remove(&timer_id),
+        };
+    }
+
+    // A channel that fires when the next scheduled timer expires (never, if there are no timers).
+    fn next_timer_alarm(&self) -> Receiver<Instant> {
+        match self.timers.keys().next() {
+            Some(next_timer) => crossbeam_channel::at(next_timer.0),
+            None => crossbeam_channel::never(),
         }
     }
 
     /// Blocks the current thread until an event is received by this queue.
     pub fn receive(&mut self) -> E {
-        self.enque_timers();
         // Since [`EventReceiver`] always has a sender attribute,
         // any call to [`receive()`] always has a living sender in that time
         // and the channel never can be considered disconnected.
-        if !self.priority_receiver.is_empty() {
-            self.priority_receiver.recv().unwrap()
-        }
-        else if self.timers.is_empty() {
+        loop {
+            if let Some(event) = self.try_receive() {
+                return event;
+            }
+
+            // Nothing to deliver yet. Wait for a new event, for the next timer to expire,
+            // or for a timer command (sent or cancelled while waiting) that changes that timer.
+            let alarm = self.next_timer_alarm();
             select! {
-                recv(self.receiver) -> event => event.unwrap(),
-                recv(self.priority_receiver) -> event => event.unwrap(),
-            }
-        }
-        else {
-            let next_timer = *self.timers.iter().next().unwrap().0;
-            if next_timer.0 <= Instant::now() {
-                self.timers.remove(&next_timer).unwrap()
-            }
-            else {
-                select! {
-                    recv(self.receiver) -> event => event.unwrap(),
-                    recv(self.priority_receiver) -> event => event.unwrap(),
-                    recv(crossbeam_channel::at(next_timer.0)) -> _ => {
-                        self.timers.remove(&next_timer).unwrap()
-                    }
-                }
+                recv(self.receiver) -> event => return event.unwrap(),
+                recv(self.priority_receiver) -> event => return event.unwrap(),
+                recv(self.timer_receiver) -> command => self.process_timer_command(command.unwrap()),
+                recv(alarm) -> _ => (),
             }
         }
     }
@@ -128,32 +130,20 @@ where E: Send + 'static
     /// Blocks the current thread until an event is received by this queue or timeout is exceeded.
     /// If timeout is reached a None is returned, otherwise the event is returned.
     pub fn receive_timeout(&mut self, timeout: Duration) -> Option<E> {
-        self.enque_timers();
+        let start = Instant::now();
+        loop {
+            if let Some(event) = self.try_receive() {
+                return Some(event);
+            }
 
-        if !self.priority_receiver.is_empty() {
-            Some(self.priority_receiver.recv().unwrap())
-        }
-        else if self.timers.is_empty() {
+            let remaining = timeout.saturating_sub(start.elapsed());
+            let alarm = self.next_timer_alarm();
             select! {
-                recv(self.receiver) -> event => Some(event.unwrap()),
-                recv(self.priority_receiver) -> event => Some(event.unwrap()),
-                default(timeout) => None
-            }
-        }
-        else {
-            let next_timer = *self.timers.iter().next().unwrap().0;
-            if next_timer.0 <= Instant::now() {
-                self.timers.remove(&next_timer)
-            }
-            else {
-                select! {
-                    recv(self.receiver) -> event => Some(event.unwrap()),
-                    recv(self.priority_receiver) -> event => Some(event.unwrap()),
-                    recv(crossbeam_channel::at(next_timer.0)) -> _ => {
-                        self.timers.remove(&next_timer)
-                    }
-                    default(timeout) => None
-                }
+                recv(self.receiver) -> event => return Some(event.unwrap()),
+                recv(self.priority_receiver) -> event => return Some(event.unwrap()),
+                recv(self.timer_receiver) -> command => self.process_timer_command(command.unwrap()),
+                recv(alarm) -> _ => (),
+                default(remaining) => return None,
             }
         }
     }
